@@ -506,7 +506,22 @@ def make_tracer(kind):
 CLIENT_HEADERS = {"X-Client": "client-level", "Authorization": "Bearer tok"}
 
 
-def build_client(variant, own_transport: bool, server: SimServer, yield_point=None):
+def _logging_hooks(is_async):
+    """What a user-supplied http client often carries: a response hook that reads the body and logs its text (the httpx
+    documentation's own example of event hooks).  The response handed on to the GraphQL client has then been read."""
+    seen = []
+    if is_async:
+        async def log_response(response):
+            await response.aread()
+            seen.append((response.status_code, len(response.text)))
+    else:
+        def log_response(response):
+            response.read()
+            seen.append((response.status_code, len(response.text)))
+    return {"response": [log_response]}
+
+
+def build_client(variant, own_transport: bool, server: SimServer, yield_point=None, response_hook=False):
     """(client, names, patch-context-or-None)."""
     pkgname, is_async, tracer_kind = VARIANTS[variant]
     pkg = fixture.mods()[pkgname]
@@ -525,10 +540,11 @@ def build_client(variant, own_transport: bool, server: SimServer, yield_point=No
         finally:
             ctxmgr.__exit__(None, None, None)
     else:
+        hk = {"event_hooks": _logging_hooks(is_async)} if response_hook else {}
         if is_async:
-            hc = httpx.AsyncClient(transport=AsyncSimTransport(server), headers=dict(CLIENT_HEADERS))
+            hc = httpx.AsyncClient(transport=AsyncSimTransport(server), headers=dict(CLIENT_HEADERS), **hk)
         else:
-            hc = httpx.Client(transport=SyncSimTransport(server, yield_point), headers=dict(CLIENT_HEADERS))
+            hc = httpx.Client(transport=SyncSimTransport(server, yield_point), headers=dict(CLIENT_HEADERS), **hk)
         client = pkg.Client(http_client=hc, headers=dict(CLIENT_HEADERS), **kw)
     return client, N
 
@@ -746,10 +762,10 @@ def _run_workload(ch, variant, callers, uploads_spec, server_factory, own_transp
         server.nonce_for = nonce_for
         try:
             with deterministic_gc(), seeded_world(ch, clock=loop.time):
-                client, N = build_client(variant, own_transport, server)
+                client, N = build_client(variant, own_transport, server, response_hook=bool(sched_knobs.get("response_hook")))
                 # a second client object built the same way, used by caller 1 only and closed when that caller is done: two
                 # client objects are two clients
-                client_b = build_client(variant, own_transport, server)[0] if (sched_knobs.get("second_client") and len(callers) >= 2) else None
+                client_b = build_client(variant, own_transport, server, response_hook=bool(sched_knobs.get("response_hook")))[0] if (sched_knobs.get("second_client") and len(callers) >= 2) else None
                 if client_b is not None:
                     info["second_client_object"] = True
                 _main_client = client
@@ -852,7 +868,7 @@ def _run_workload(ch, variant, callers, uploads_spec, server_factory, own_transp
         server.nonce_for = nonce_for
         yp = sched.yield_point if sched else None
         with seeded_world(ch, clock=None):
-            client, N = build_client(variant, own_transport, server, yp)
+            client, N = build_client(variant, own_transport, server, yp, response_hook=bool(sched_knobs.get("response_hook")))
             # (the builder modules are traced: import them now, not under the scheduler - a module body executing under the
             # import lock must not be pre-empted)
             for m_ in ("custom_typing_fields", "custom_fields", "custom_queries", "custom_mutations"):
@@ -860,7 +876,7 @@ def _run_workload(ch, variant, callers, uploads_spec, server_factory, own_transp
                     importlib.import_module(type(client).__module__.rsplit(".", 1)[0] + "." + m_)
                 except ImportError:
                     pass
-            client_b = build_client(variant, own_transport, server, yp)[0] if (sched_knobs.get("second_client") and len(callers) >= 2) else None
+            client_b = build_client(variant, own_transport, server, yp, response_hook=bool(sched_knobs.get("response_hook")))[0] if (sched_knobs.get("second_client") and len(callers) >= 2) else None
             if client_b is not None:
                 info["second_client_object"] = True
             _main_client = client
